@@ -5,7 +5,27 @@ ROOT = os.path.dirname(os.path.dirname(os.path.abspath(__file__)))
 
 
 def _f1_short(cfg, sz):
-    """some level's even-extended length is smaller than the filter length"""
+    """some level's even-extended length is smaller than the filter length (sz = the sizes the evaluation really used, when
+    the checker reported them: clamped extents, actual wavelet lengths Lc / Lr)"""
+    if 'Lc' in sz or 'Lr' in sz:
+        J = sz.get('J', 1)
+        lc = sz.get('Lc', sz.get('Lr'))
+        lr = sz.get('Lr', lc)
+        pairs = []
+        if 'H' in sz or 'W' in sz:
+            pairs += [(sz.get('H'), lc), (sz.get('W'), lr)]
+        if 'N' in sz and ('H' not in sz):
+            pairs.append((sz.get('N'), lc))
+        for n, L in pairs:
+            if n is None or L is None:
+                continue
+            if cfg.get('cls', '').startswith('SFB'):
+                n = 2 * n
+            for j in range(J):
+                if n + n % 2 < L:
+                    return True
+                n = (n + 1) // 2
+        return False
     J = sz.get('J', 1)
     pairs = []
     if cfg.get('dim') == 1 or 'N' in sz and 'H' not in sz:
@@ -54,7 +74,9 @@ def in_known(fl, findings):
             if fl['cfg'].get(k) not in (v if isinstance(v, list) else [v]):
                 ok = False
         if ok and m.get('pred'):
-            ok = PREDS[m['pred']](fl['cfg'], fl['sizes'])
+            eff = dict(fl.get('sizes') or {})
+            eff.update(fl.get('eff') or {})
+            ok = PREDS[m['pred']](fl['cfg'], eff)
         if ok:
             return True
     return False
